@@ -88,8 +88,13 @@ type symProof struct {
 	b       *protocol.PreparedProofBuilder
 }
 
+// k >= 0: PREPREPARE sender plus k PREPARE senders; k == -2: both block-refs but no sender part at all
 func newSymProof(reg *stub.Registry, name string, k int) *symProof {
 	pr := &symProof{pp: newSymRef(name + "_pp"), p: newSymRef(name + "_p")}
+	if k == -2 {
+		pr.b = &protocol.PreparedProofBuilder{PreprepareBlockRef: pr.pp.b, PrepareBlockRef: pr.p.b}
+		return pr
+	}
 	pr.ppS = newSymSender(reg, name+"_pps", uint64(pr.pp.height), pr.pp.raw)
 	var bs []*protocol.SenderSignatureBuilder
 	for j := 0; j < k; j++ {
@@ -145,6 +150,9 @@ func allTrue(n int) []bool {
 
 // proofOK: the reference predicate PP(p) of Appendix A for a proof inside a vote of view voteView at height H.
 func (c *refCommittee) proofOK(p *symProof, H primitives.BlockHeight, voteView primitives.View) bool {
+	if p.ppS == nil {
+		return false // no signatures at all: never a valid certificate
+	}
 	ok := env.And(p.pp.height == H, p.p.height == H)
 	ok = env.And(ok, env.And(p.pp.view == p.p.view, p.pp.view < voteView))
 	ok = env.And(ok, p.pp.hash == p.p.hash)
